@@ -394,8 +394,15 @@ func (w *WalletManager) findEligibleUtxos(amount massutil.Amount, witnessAddr []
 	firstAddr := ""
 	if len(selections) > 0 {
 		am := w.ksmgr.CurrentKeystore()
+		if am == nil {
+			// the selected wallet has been removed since the coins were read
+			return nil, "", zeroAmount, false, ErrNoWalletInUse
+		}
 		for _, addr := range witnessAddr {
-			ma, _ := am.Address(addr)
+			ma, err := am.Address(addr)
+			if err != nil {
+				continue
+			}
 			if bytes.Equal(ma.ScriptAddress(), selections[0].ScriptHash) {
 				firstAddr = addr
 				break
@@ -614,6 +621,10 @@ func (w *WalletManager) signWitnessTx(password []byte, tx *wire.MsgTx, hashType 
 		addrStr := address.EncodeAddress()
 
 		acctM := w.ksmgr.CurrentKeystore()
+		if acctM == nil {
+			// the selected wallet has been removed since signing started
+			return nil, keystore.ErrUnexpectedPubKeyToSign
+		}
 		mAddr, err := acctM.Address(addrStr)
 		if err != nil {
 			logging.CPrint(logging.ERROR, "ScriptClosure error", logging.LogFormat{"err": err})
